@@ -193,3 +193,15 @@ def tagLinesClosed (endRe : Re) (hdr : Text) : Bool :=
 def tagUnusable (endRe : Re) (tag : Text) : Bool := tag.any fun c => !mayUse endRe c
 
 end Spec
+
+namespace Spec
+open Py Model
+
+/-! ### the part of the written text that ends with the header (hypothesis of `C07_file_window`) -/
+
+/-- what `place_header` puts in front of everything else: the text above the header (right-stripped,
+    followed by an empty line) and the header block with its line feed -/
+def headPart (hdr before : Text) : Text :=
+  if (strip before).isEmpty then hdr ++ ['\n'] else rstrip before ++ ['\n', '\n'] ++ hdr ++ ['\n']
+
+end Spec
